@@ -153,7 +153,9 @@ class NPRandom(Forward):
         if PRESET['uniform'] or _np.ndim(low) > 0 or _np.ndim(high) > 0: return self._draw('uniform', ('uniform', low, high), size)
         return self._draw('uniform', ('uniform', low, high), size, lambda s: [s >= T(low), s < T(high)])
     def randn(self, *shape): return self._draw('randn', ('normal', 0, 1), shape or None)
-    def standard_normal(self, size=None): return self._draw('standard_normal', ('normal', 0, 1), size)
+    def standard_normal(self, size=None):
+        if size is ADIM and not PRESET['normal']: raise core.Concretised("standard normal draw of abstract dimension was not named by the contract")
+        return self._draw('standard_normal', ('normal', 0, 1), size)
     def normal(self, loc=0.0, scale=1.0, size=None):
         if size is None and not _np.isscalar(loc) and not isinstance(loc, SReal): size = _np.shape(loc)
         if size is None and not _np.isscalar(scale) and not isinstance(scale, SReal): size = _np.shape(scale)
@@ -255,6 +257,7 @@ class NPShim(Forward):
     def asfarray(self, a, *args, **k): return self.asarray(a)
     def copy(self, a, *args, **k):
         if isinstance(a, AVec): return a.copy()
+        if isinstance(a, SReal): return a
         return _np.copy(a, *args, **k)
     def isscalar(self, a):
         if isinstance(a, SReal): return True
